@@ -9,7 +9,7 @@ TRUSTED_COMMON = [
 
 class Prop:
     def __init__(self, pid, streams, nontrivial, rule, quick_n, thorough_n, trusted=(), assumptions=(), partial=None,
-                 module=None, pre=()):
+                 module=None, pre=(), thorough_lines=None):
         self.id = pid
         self.streams = streams          # list of (name, generator, weight)
         self.nontrivial = nontrivial    # function(case) -> bool
@@ -20,6 +20,7 @@ class Prop:
         self.partial = partial
         self.module = module or ("Mltwist.Props." + pid)
         self.pre = list(pre)
+        self.thorough_lines = thorough_lines
 
 
 def has(*tags):
